@@ -132,7 +132,7 @@ pub fn answer(req: &str) -> String {
             Some(src) => asm_answer(&src),
             None => "BADREQ".into(),
         },
-        "opnd" | "jsp" => match rest.trim().split(' ').next().and_then(dec) {
+        "opnd" | "jsp" | "role" => match rest.trim().split(' ').next().and_then(dec) {
             Some(src) => asm_answer(&src),
             None => "BADREQ".into(),
         },
